@@ -433,3 +433,56 @@ func runConn(srv *lab.Server, s gen.Service, sc scenario, k, c int) (reply, ling
 }
 
 var _ = net.IPv4
+
+// ---- exported workload (used by C05 and C09, which ride on the same generators) ----
+
+// Workload hosts one service of the quantifier and runs C01 scenarios against it.
+type Workload struct {
+	Svc gen.Service
+	Srv *lab.Server
+}
+
+// StartWorkload prepares the scratch files and starts the real server for service index i.
+func StartWorkload(i int) (*Workload, error) {
+	s := gen.Services()[i]
+	work := lab.WorkDir()
+	os.MkdirAll(work+"/ftproot", 0755)
+	writePNG(work + "/vnc.png")
+	srv, err := lab.Start(config(s, work))
+	if err != nil {
+		return nil, err
+	}
+	return &Workload{Svc: s, Srv: srv}, nil
+}
+
+// ScenarioInfo describes what a scenario did.
+type ScenarioInfo struct {
+	Kind   string
+	K      int
+	Bytes  int
+	Reply  int
+	Events int
+	Linger int
+	Addrs  []string // client ip:port pairs used
+}
+
+// Run executes scenario idx (same generator as C01) and returns what it did.
+func (w *Workload) Run(seed int64, idx, k int, singleConn bool) ScenarioInfo {
+	sc := mkScenario(w.Svc, seed, idx, false)
+	if singleConn {
+		sc.K = 1
+	}
+	rec := runScenario(w.Srv, w.Svc, sc, k, false)
+	info := ScenarioInfo{Kind: rec.Kind, K: sc.K, Bytes: rec.Bytes, Reply: rec.Reply, Events: rec.Events, Linger: rec.Linger}
+	for c := 0; c < sc.K; c++ {
+		ip, port := clientAddr(k, c)
+		n := 1
+		if w.Svc.Net == "udp" {
+			n = len(sc.Steps)
+		}
+		for i := 0; i < n; i++ {
+			info.Addrs = append(info.Addrs, fmt.Sprintf("%s:%d", ip, port+i*64))
+		}
+	}
+	return info
+}
